@@ -755,6 +755,31 @@ func splitEthGas(data []byte) ([]byte, int) {
 	return bz, total
 }
 
+// errClass is the class of a failure message: its first words, without figures, addresses and times.
+func errClass(msg string) string {
+	msg = strings.TrimPrefix(msg, "panic: ")
+	if i := strings.IndexAny(msg, "(:[{"); i > 0 {
+		msg = msg[:i]
+	}
+	var b strings.Builder
+	for _, r := range msg {
+		switch {
+		case r >= 'a' && r <= 'z' || r >= 'A' && r <= 'Z':
+			b.WriteRune(r)
+		case b.Len() > 0 && !strings.HasSuffix(b.String(), " "):
+			b.WriteRune(' ')
+		}
+	}
+	out := strings.TrimSpace(b.String())
+	if len(out) > 70 {
+		out = out[:70]
+	}
+	if out == "" {
+		out = "-"
+	}
+	return out
+}
+
 // flatten turns a JSON document into path -> scalar-digest pairs.
 func flatten(prefix string, v any, out map[string]string) {
 	switch x := v.(type) {
@@ -1229,10 +1254,10 @@ func chainMain(args []string) error {
 			}
 			d, err := n.exportImport()
 			if err != nil {
-				emit(M{"ev": "export_import", "h": n.Height, "ok": false, "err": err.Error(), "before": M{"_": M{"_": "-"}}, "after": M{"_": M{"_": "-"}}, "norm": M{"_": M{"_": "-"}}, "zeroErr": ""})
+				emit(M{"ev": "export_import", "h": n.Height, "ok": false, "err": err.Error(), "errClass": errClass(err.Error()), "before": M{"_": M{"_": "-"}}, "after": M{"_": M{"_": "-"}}, "norm": M{"_": M{"_": "-"}}, "zeroErr": ""})
 				continue
 			}
-			emit(M{"ev": "export_import", "h": n.Height, "ok": true, "err": "", "before": d["before"], "after": d["after"], "norm": d["norm"],
+			emit(M{"ev": "export_import", "h": n.Height, "ok": true, "err": "", "errClass": "-", "before": d["before"], "after": d["after"], "norm": d["norm"],
 				"leaves": d["leaves"], "queries": d["queries"], "initHeight": d["initHeight"], "zeroErr": d["zeroErr"]})
 		}
 	}
